@@ -440,6 +440,8 @@ def _pull(ctx, R, roles, T):
     R.check(len(recv) == 1 and not g.in_cycle(recv[0][0]) and g.dominates([recv[0][0]], it), "CEO-pull", q + "|recv-first", "RECV is requested once, before reading records",
             "RECV is not sent exactly once before the records are read", f.loc())
     if len(recv) == 1:
+        R.check(g.dominates([recv[0][0]], g.exit, exc=False) and g.dominates([it], g.exit, exc=False), "CEO-pull", q + "|recv-always", "_pull returns normally only after requesting the file and reading its records",
+                "_pull can return normally without having sent RECV and read the records (an early return): the caller gets an empty or missing file and no failure", f.loc())
         dt = T.term(f, recv[0][0], recv[0][2].get("data")) if recv[0][2].get("data") is not None else None
         R.check(dt == ("p", "device_path"), "CEO-pull", q + "|recv-path", "RECV names the requested device path", "RECV carries %s instead of device_path" % (show(dt) if dt else "nothing"), f.loc(recv[0][0].ast))
     # consumer: stream.write(data)
@@ -520,6 +522,9 @@ def _pull_public(ctx, R, roles, T):
     g = ctx.cfg(f)
     sites = callee_nodes(ctx, f, roles.dev["_pull"])
     R.check(len(sites) == 1, "PULL", f.qualname + "|delegates", "pull delegates to _pull once", "pull calls _pull %d times" % len(sites), f.loc())
+    if len(sites) == 1:
+        R.check(g.dominates([sites[0][0]], g.exit, exc=False) and not sites[0][0].loops, "PULL", f.qualname + "|always-transfers", "pull returns normally only after the transfer",
+                "pull can return normally without calling _pull (an early return): no file is written and no failure is reported", f.loc())
     for n, c in sites:
         b = ctx.cg.site(c).bind(roles.dev["_pull"])
         st = T.term(f, n, b.get("stream")) if b.get("stream") is not None else None
